@@ -351,7 +351,7 @@ struct SetAdapter {
           res.nodeVal = val_of(nh.value());
           if (op.variant & 4) {
             auto h = iter_at(tgt, op.pos % ((size_t)tgt.size() + 1));
-            G.armed = true; auto it = tgt.insert(h, std::move(nh)); G.armed = false;
+            G.armed = true; SIM_CMP_BEGIN; auto it = tgt.insert(h, std::move(nh)); SIM_CMP_END(10); G.armed = false;
             // check the iterator against the target set
             res.hasIt = true; res.itEnd = (it == tgt.end()); res.itValid = res.itEnd || designates(tgt, it, res.itVal);
             res.nodeEmptyAfterInsert = nh.empty();
